@@ -1,8 +1,416 @@
-//! C02 – not implemented yet.
-use mvlib::Ctx;
-use serde_json::Value;
+//! C02 – a successful build is a fixed point: labels are addresses, operands final.
+//!
+//! Families: A (size / convergence: all statement sequences up to length k over 26 items started
+//! at $00f8), B (scoping shapes), C (segments with cross references). Oracle = certificate check
+//! of the implementation's own output (`cert.rs`).
 
-pub fn run(_ctx: &Ctx, _replay: Option<&Value>) -> i32 {
-    eprintln!("C02: engine not implemented yet");
-    2
+use crate::cert::{certify, Cert, Problem};
+use crate::probe::{self, Opts, Sym};
+use mvlib::grammar::*;
+use mvlib::isa::{Form, Isa};
+use mvlib::{fnv_str, Ctx, Finding};
+use rayon::prelude::*;
+use serde_json::{json, Value};
+
+/// Items of family A. `{` and `}` are structural.
+#[derive(Clone, Debug, PartialEq)]
+enum Item {
+    S(Stmt),
+    Open,
+    Close,
+}
+
+fn items_a() -> Vec<(&'static str, Item)> {
+    let s = |n: &'static str, st: Stmt| (n, Item::S(st));
+    vec![
+        s("lda a", ins("lda", Form::Plain, id("a"))),
+        s("lda b", ins("lda", Form::Plain, id("b"))),
+        s("ldx a,y", ins("ldx", Form::PlainY, id("a"))),
+        s("sta b,x", ins("sta", Form::PlainX, id("b"))),
+        s("jmp a", ins("jmp", Form::Plain, id("a"))),
+        s("jmp b", ins("jmp", Form::Plain, id("b"))),
+        s("bne a", ins("bne", Form::Plain, id("a"))),
+        s("beq b", ins("beq", Form::Plain, id("b"))),
+        s(".byte <b", byte(vec![lo("b")])),
+        s(".word a", word(vec![id("a")])),
+        s(".word b - a", word(vec![bin(id("b"), "-", id("a"))])),
+        s("lda $1ff - b", ins("lda", Form::Plain, bin(lit("$1ff"), "-", id("b")))),
+        s("a:", label("a")),
+        s("b:", label("b")),
+        s("nop", imp("nop")),
+        s(".byte 1,2", byte(vec![num(1), num(2)])),
+        s(".const c = b + 1", konst("c", bin(id("b"), "+", num(1)))),
+        s("lda c", ins("lda", Form::Plain, id("c"))),
+        s(
+            ".var v = a",
+            Stmt::Var {
+                name: "v".into(),
+                value: id("a"),
+            },
+        ),
+        s("* = $00f8", Stmt::PcSet(lit("$00f8"))),
+        s("* = $2000", Stmt::PcSet(lit("$2000"))),
+        s(".align 4", Stmt::Align(num(4))),
+        s(
+            ".text \"ab\"",
+            Stmt::Text {
+                encoding: None,
+                value: string("ab"),
+            },
+        ),
+        ("{", Item::Open),
+        ("}", Item::Close),
+        s("lda -", ins("lda", Form::Plain, id("-"))),
+        s("jmp +", ins("jmp", Form::Plain, id("+"))),
+    ]
+}
+
+/// Builds the AST for a sequence of item indices; None when braces are unbalanced.
+fn build_a(items: &[(&'static str, Item)], seq: &[usize]) -> Option<Vec<Stmt>> {
+    fn rec(items: &[(&'static str, Item)], seq: &[usize], pos: &mut usize, depth: usize) -> Option<Vec<Stmt>> {
+        let mut out = vec![];
+        while *pos < seq.len() {
+            match &items[seq[*pos]].1 {
+                Item::S(s) => {
+                    out.push(s.clone());
+                    *pos += 1;
+                }
+                Item::Open => {
+                    // `a:` followed by `{` on the next line is a *named* block in mos's grammar,
+                    // not a label followed by an anonymous scope: keep such texts out
+                    if matches!(out.last(), Some(Stmt::Label { block: None, .. })) {
+                        return None;
+                    }
+                    *pos += 1;
+                    let inner = rec(items, seq, pos, depth + 1)?;
+                    out.push(Stmt::Braces(inner));
+                }
+                Item::Close => {
+                    if depth == 0 {
+                        return None;
+                    }
+                    *pos += 1;
+                    return Some(out);
+                }
+            }
+        }
+        if depth == 0 {
+            Some(out)
+        } else {
+            None
+        }
+    }
+    let mut pos = 0;
+    let mut prog = vec![Stmt::PcSet(lit("$00f8"))];
+    prog.extend(rec(items, seq, &mut pos, 0)?);
+    Some(prog)
+}
+
+fn problem_sig(p: &Problem) -> String {
+    match p {
+        Problem::Label { kind, expected, actual, .. } => {
+            let off = match actual {
+                Some(a) => {
+                    let d = a - expected;
+                    if d.abs() <= 4 {
+                        format!("off-by-{}", d)
+                    } else {
+                        "far".to_string()
+                    }
+                }
+                None => "missing".to_string(),
+            };
+            format!("label:{}:{}", kind, off)
+        }
+        Problem::Const { .. } => "const:stale".into(),
+        Problem::Bytes { stmt_kind, .. } => format!("stale:{}", stmt_kind),
+        Problem::Extra { .. } => "extra-bytes".into(),
+        Problem::Range { .. } => "range".into(),
+        Problem::Unencodable { stmt_kind, .. } => format!("unencodable:{}", stmt_kind),
+        Problem::SegmentSymbol { .. } => "segment-symbol".into(),
+    }
+}
+
+fn vice_check(ctx: &Ctx, built: &probe::Built, text: &str, family: &str) {
+    // exported symbols are exactly the label values
+    if let Some(c) = &built.ctx {
+        let vice = mos_core::io::to_vice_symbols(c.symbols());
+        let mut expect: Vec<String> = built
+            .symbols
+            .iter()
+            .filter(|(_, (_, ty))| *ty == "label")
+            .filter_map(|(p, (v, _))| match v {
+                Sym::Num(n) => Some(format!("al C:{:X} .{}", n, p)),
+                _ => None,
+            })
+            .collect();
+        expect.sort();
+        let got: Vec<String> = vice.lines().map(|l| l.to_string()).filter(|l| !l.is_empty()).collect();
+        if got != expect {
+            ctx.finding(Finding::new(
+                format!("vice:{}", family),
+                format!("VICE symbols {:?} != label values {:?}", got, expect),
+                json!({"kind": "c02", "family": family, "files": {"main.asm": text}}),
+            ));
+        }
+    }
+}
+
+fn check_prog(ctx: &Ctx, isa: &Isa, family: &str, prog: &[Stmt]) {
+    let text = program_text(prog);
+    ctx.eval(|| json!(text));
+    let opts = Opts {
+        keep_ctx: true,
+        ..Default::default()
+    };
+    let built = match probe::assemble(&[("main.asm", &text)], &opts) {
+        Ok(b) => b,
+        Err(p) => {
+            ctx.count("panicked");
+            ctx.finding(Finding::new(
+                format!("panic:{}", p.site),
+                format!("{:?} panics: {} at {}", text, p.message, p.site),
+                json!({"kind": "c02", "family": family, "files": {"main.asm": text}}),
+            ));
+            return;
+        }
+    };
+    if !built.ok() {
+        ctx.count(match built.stop {
+            probe::Stop::None => "rejected",
+            probe::Stop::Cycle { .. } => "cycle",
+            probe::Stop::PassBudget(_) => "pass-budget",
+            probe::Stop::Fuel => "fuel",
+        });
+        return;
+    }
+    ctx.count(&format!("assembled_{}", family));
+    let cert: Cert = certify(isa, &built, prog);
+    if !cert.unsupported.is_empty() {
+        ctx.count("unsupported_by_checker");
+        return;
+    }
+    if cert.refs > 0 {
+        ctx.nontrivial(fnv_str(&text));
+        ctx.count("with_reference");
+    }
+    if cert.forward_refs > 0 {
+        ctx.count("with_forward_reference");
+    }
+    if cert.cross_segment_refs > 0 {
+        ctx.count("with_cross_segment_reference");
+    }
+    // did any label move between the first and the last pass?
+    let moved = built.first_pass_symbols.iter().any(|(p, v)| {
+        matches!(built.symbols.get(p), Some((Sym::Num(n), "label")) if n != v)
+    });
+    if moved {
+        ctx.count("label_moved_between_passes");
+    }
+    if built.passes > 3 {
+        ctx.count("more_than_3_passes");
+    }
+    for p in &cert.problems {
+        ctx.finding(Finding::new(
+            format!("{}:{}", problem_sig(p), family),
+            format!("build of {:?} succeeded but is not a fixed point: {:?}", text, p),
+            json!({"kind": "c02", "family": family, "files": {"main.asm": text}}),
+        ));
+    }
+    vice_check(ctx, &built, &text, family);
+}
+
+/// Family B: scoping shapes.
+fn family_b() -> Vec<Vec<Stmt>> {
+    let paths = [
+        "a", "super.a", "super.super.a", "s1.a", "s1.s2.a", "-", "+", "s1.-", "s1.s2.+", "s2.a",
+    ];
+    let mut out = vec![];
+    for mask in 1u8..8 {
+        for use_level in 0..3usize {
+            for path in paths.iter() {
+                for use_first in [false, true] {
+                    for as_instr in [false, true] {
+                        let usage = if as_instr {
+                            ins("lda", Form::Plain, id(path))
+                        } else {
+                            word(vec![id(path)])
+                        };
+                        // level bodies, innermost first
+                        let mut l2: Vec<Stmt> = vec![];
+                        if mask & 4 != 0 {
+                            l2.push(label("a"));
+                        }
+                        l2.push(imp("nop"));
+                        if use_level == 2 {
+                            if use_first {
+                                l2.insert(0, usage.clone());
+                            } else {
+                                l2.push(usage.clone());
+                            }
+                        }
+                        let mut l1: Vec<Stmt> = vec![imp("inx")];
+                        if mask & 2 != 0 {
+                            l1.push(label("a"));
+                        }
+                        l1.push(imp("iny"));
+                        l1.push(label_block("s2", l2));
+                        if use_level == 1 {
+                            if use_first {
+                                l1.insert(0, usage.clone());
+                            } else {
+                                l1.push(usage.clone());
+                            }
+                        }
+                        let mut l0: Vec<Stmt> = vec![imp("dex")];
+                        if mask & 1 != 0 {
+                            l0.push(label("a"));
+                        }
+                        l0.push(imp("dey"));
+                        l0.push(label_block("s1", l1));
+                        l0.push(imp("rts"));
+                        if use_level == 0 {
+                            if use_first {
+                                l0.insert(0, usage.clone());
+                            } else {
+                                l0.push(usage.clone());
+                            }
+                        }
+                        out.push(l0);
+                    }
+                }
+            }
+        }
+    }
+    out
+}
+
+/// Family C: segments.
+fn family_c(max_segments: usize) -> Vec<Vec<Stmt>> {
+    let mut out = vec![];
+    let names = ["sa", "sb", "sc"];
+    // start choices: 3 literals or "end of the previous segment (cyclically)"
+    for n in 1..=max_segments {
+        let start_choices = 4usize;
+        let combos = start_choices.pow(n as u32) * 2usize.pow(n as u32);
+        for combo in 0..combos {
+            let mut c = combo;
+            let mut cfg = vec![];
+            for _ in 0..n {
+                let st = c % start_choices;
+                c /= start_choices;
+                let pc = c % 2;
+                c /= 2;
+                cfg.push((st, pc));
+            }
+            // at most one dependent start per program would hide chains; allow all but skip self-dependency for n == 1
+            if n == 1 && cfg[0].0 == 3 {
+                continue;
+            }
+            // reference patterns: every segment i references label of segment (i + r) % n and symbol kind k
+            for r in 0..n {
+                for k in 0..3 {
+                    let mut prog = vec![];
+                    for i in 0..n {
+                        let start = match cfg[i].0 {
+                            0 => lit("$00f0"),
+                            1 => lit("$0100"),
+                            2 => lit("$c000"),
+                            _ => id(&format!("segments.{}.end", names[(i + n - 1) % n])),
+                        };
+                        let mut pairs = vec![("name".to_string(), string(names[i])), ("start".to_string(), start)];
+                        if cfg[i].1 == 1 {
+                            pairs.push(("pc".to_string(), lit("$8000")));
+                        }
+                        prog.push(Stmt::Define {
+                            kind: "segment",
+                            pairs,
+                        });
+                    }
+                    for i in 0..n {
+                        let j = (i + r) % n;
+                        let sym = match k {
+                            0 => format!("segments.{}.start", names[j]),
+                            1 => format!("segments.{}.end", names[j]),
+                            _ => format!("l{}", j),
+                        };
+                        prog.push(Stmt::Segment {
+                            name: string(names[i]),
+                            block: Some(vec![
+                                ins("lda", Form::Plain, id(&format!("l{}", j))),
+                                label(&format!("l{}", i)),
+                                word(vec![id(&sym)]),
+                                ins("ldx", Form::PlainY, id(&format!("l{}", (j + 1) % n))),
+                            ]),
+                        });
+                    }
+                    out.push(prog);
+                }
+            }
+        }
+    }
+    out
+}
+
+pub fn run(ctx: &Ctx, replay: Option<&Value>) -> i32 {
+    let isa = Isa::new();
+    if let Some(case) = replay {
+        let text = case["files"]["main.asm"].as_str().unwrap_or("");
+        println!("replaying (assemble, print symbols and bytes):\n{}\n---", text);
+        match probe::asm(text) {
+            Ok(b) => {
+                println!("ok={} passes={} diagnostics={:?}", b.ok(), b.passes, b.messages());
+                for s in &b.segs {
+                    println!("segment {} ${:04x}..${:04x}: {}", s.name, s.start, s.end, crate::util::hex_bytes(&s.bytes));
+                }
+                for (p, (v, ty)) in &b.symbols {
+                    println!("  {} {} = {:?}", ty, p, v);
+                }
+                println!("(the certificate check needs the AST; re-run `./check C02` to re-derive the verdict)");
+            }
+            Err(p) => println!("PANIC {} at {}", p.message, p.site),
+        }
+        return 0;
+    }
+    let thorough = ctx.tier.is_thorough();
+    let items = items_a();
+    let k = if thorough { 5 } else { 4 };
+    ctx.set("family_a_items", json!(items.len()));
+    ctx.set("family_a_max_len", json!(k));
+    // family A: all sequences of length 1..=k
+    let n = items.len();
+    for len in 1..=k {
+        let total = n.pow(len as u32);
+        (0..total).into_par_iter().for_each(|code| {
+            let mut c = code;
+            let mut seq = Vec::with_capacity(len);
+            for _ in 0..len {
+                seq.push(c % n);
+                c /= n;
+            }
+            if let Some(prog) = build_a(&items, &seq) {
+                check_prog(ctx, &isa, "A", &prog);
+            }
+        });
+    }
+    ctx.set("family_a_evaluations", json!(ctx.evals()));
+    // family B
+    let b = family_b();
+    ctx.set("family_b_programs", json!(b.len()));
+    b.par_iter().for_each(|prog| check_prog(ctx, &isa, "B", prog));
+    // family C
+    let c = family_c(if thorough { 3 } else { 2 });
+    ctx.set("family_c_programs", json!(c.len()));
+    c.par_iter().for_each(|prog| check_prog(ctx, &isa, "C", prog));
+    ctx.finish(
+        "exploration",
+        "A: every statement sequence of length <= k over 27 items (references to two labels in zero-page/absolute/indexed/branch/data positions, label definitions, a dependent constant, pc assignments, .align, text, braces, block start/end references) assembled at $00f8 so that every forward reference is a zero-page/absolute decision; B: 3-level scope shapes x definition mask x use level x 10 path forms x use before/after x instruction/data; C: 1-3 segments x start (3 literals or end of another segment) x pc relocation x cross references. Every *successful* build is certified: label/block symbols = cursor addresses, every statement's bytes = ISA/evaluator result under the implementation's final symbols, no unexplained bytes, segments.x.start/end = ranges, VICE symbols = label values. non-trivial = distinct assembled program containing at least one symbol reference",
+        true,
+        &[
+            "sequence length bound k (4 quick / 5 thorough), two label names, fixed literal operands",
+            "the certificate checker's resolver implements innermost-outward scoping with `super`; programs using constructs it does not model are counted, not judged",
+            ".align is accepted with padding (n - pc % n) or (n - pc % n) % n",
+            "zero-page form expected exactly when one exists and the final value is 0..255",
+        ],
+    )
 }
